@@ -536,12 +536,19 @@ func c06R2OCIStorage(c *Ctx) {
 	tn := FnName(fn)
 	isCreate := func(n string) bool { return c05Creators[n] && n != "os.MkdirAll" && n != "os.Mkdir" }
 	effects := c06FsEffectCalls(fn, isCreate)
-	renames := CallsTo(fn, "os.Rename")
-	if len(renames) == 0 {
-		c.LostAnchor(R, tn+": os.Rename")
+	// the publication target: destination of the rename in Push or in a helper it calls
+	var target ssa.Value
+	for _, e := range c05TreeEnvs(c05Root(fn), 3) {
+		for _, rn := range CallsTo(e.Fn, "os.Rename") {
+			if w, at := e.up(rn.Common().Args[1]); at.isRoot() {
+				target = w
+			}
+		}
+	}
+	if target == nil {
+		c.LostAnchor(R, tn+": os.Rename whose destination is computed in Push")
 		return
 	}
-	target := renames[0].Common().Args[1]
 	var hit []Edge
 	var stat ssa.CallInstruction
 	for _, sc := range CallsTo(fn, "os.Stat", "os.Lstat") {
@@ -726,7 +733,7 @@ func c06R2Resolve(c *Ctx) {
 		ok, why := c06Refusal(c, fn, missing, "~/errdef.ErrNotFound", nil)
 		c.Check(R, FnName(fn)+"|unknown-reference-is-not-found", fn.Pos(), ok, why)
 	}
-	// the stores hand the resolver's verdict on
+	// the stores hand the resolver's verdict on (Resolve itself or a helper it delegates to)
 	type t struct {
 		pkg, name string
 		tol       []string
@@ -736,30 +743,41 @@ func c06R2Resolve(c *Ctx) {
 		if f == nil {
 			continue
 		}
-		calls := Calls(f, func(n string) bool { return n == "(~/content.Resolver).Resolve" || n == "(*~/internal/resolver.Memory).Resolve" })
-		if len(calls) == 0 {
-			c.Violation(R, FnName(f)+"|resolver-verdict-returned", f.Pos(), "Resolve no longer consults the tag resolver")
-			continue
-		}
-		for _, call := range calls {
-			r := ErrFlow(call, ErrFlowOpts{Tolerated: x.tol})
-			okTol := true
-			detail := r.How + r.Detail
-			if r.OK && len(x.tol) > 0 {
-				// the tolerated branch (blob lookup by digest) must itself end in resolveBlob's verdict
-				al := Aliases(ErrOf(call))
-				for _, e := range toleratedEdges(f, al, x.tol) {
-					for _, rt := range c06ReturnsFrom(f, e, nil) {
-						for _, v := range rt.Vals {
-							if ErrNilStatus(v, 0) == IsNil {
-								okTol = false
-								detail = "after ErrNotFound from the tag resolver a path returns nil without consulting the blob store"
+		n := 0
+		for _, e := range c05TreeEnvs(c05Root(f), 3) {
+			g := e.Fn
+			for _, call := range Calls(g, func(n string) bool { return n == "(~/content.Resolver).Resolve" || n == "(*~/internal/resolver.Memory).Resolve" }) {
+				n++
+				r := ErrFlow(call, ErrFlowOpts{Tolerated: x.tol})
+				okTol := true
+				detail := r.How + r.Detail
+				if r.OK && len(x.tol) > 0 {
+					// the tolerated branch (blob lookup by digest) must itself end in resolveBlob's verdict
+					al := Aliases(ErrOf(call))
+					for _, te := range toleratedEdges(g, al, x.tol) {
+						for _, rt := range c06ReturnsFrom(g, te, nil) {
+							for _, v := range rt.Vals {
+								if ErrNilStatus(v, 0) == IsNil {
+									okTol = false
+									detail = "after ErrNotFound from the tag resolver a path returns nil without consulting the blob store"
+								}
 							}
 						}
 					}
 				}
+				// the helper's verdict must reach Resolve's caller
+				for lv := e; lv.Parent != nil && lv.Call != nil; lv = lv.Parent {
+					if ErrOf(lv.Call) == nil {
+						okTol, detail = false, "the result of "+FnName(lv.Fn)+" is discarded"
+					} else if rr := ErrFlow(lv.Call, ErrFlowOpts{}); !rr.OK {
+						okTol, detail = false, rr.Detail
+					}
+				}
+				c.Check(R, FnName(f)+"|resolver-verdict-returned", call.Pos(), r.OK && okTol, detail)
 			}
-			c.Check(R, FnName(f)+"|resolver-verdict-returned", call.Pos(), r.OK && okTol, detail)
+		}
+		if n == 0 {
+			c.Violation(R, FnName(f)+"|resolver-verdict-returned", f.Pos(), "Resolve no longer consults the tag resolver")
 		}
 	}
 }
@@ -877,8 +895,7 @@ func c06R2EmptyRef(c *Ctx) {
 	const R = "C06.R2.refuse-before-mutate"
 	type t struct{ pkg, name string }
 	touch := func(n string) bool {
-		return hasPrefixAny(n, "(~/content.Resolver).", "(~/content.Tagger).", "(*~/internal/resolver.Memory).", "(~/content.TagResolver).") ||
-			n == "(*~/content/oci.Store).tag" || n == "(*~/content/oci.Store).saveIndex"
+		return hasPrefixAny(n, "(~/content.Resolver).", "(~/content.Tagger).", "(*~/internal/resolver.Memory).", "(~/content.TagResolver).")
 	}
 	for _, x := range []t{{"content/file", "Store.Resolve"}, {"content/file", "Store.Tag"}, {"content/oci", "Store.Resolve"}, {"content/oci", "Store.Tag"}, {"content/oci", "Store.Untag"}, {"content/oci", "ReadOnlyStore.Resolve"}} {
 		fn := c06Fn(c, R, x.pkg, x.name)
@@ -896,25 +913,74 @@ func c06R2EmptyRef(c *Ctx) {
 			c.LostAnchor(R, tn+": reference parameter")
 			continue
 		}
-		nonEmpty, empty, via := c06EmptyGuards(c, fn, ref)
-		var touches []ssa.Instruction
-		for _, call := range Calls(fn, touch) {
-			if _, isDefer := call.(*ssa.Defer); !isDefer {
-				touches = append(touches, call.(ssa.Instruction))
+		root := c05Root(fn)
+		envs := c05TreeEnvs(root, 3)
+		// the reference as seen at each level of the call tree
+		localRef := func(e *c05Env) *ssa.Parameter {
+			if e.isRoot() {
+				return ref
+			}
+			for _, q := range e.Fn.Params {
+				if w, at := e.up(q); at.isRoot() && w == ssa.Value(ref) {
+					return q
+				}
+			}
+			return nil
+		}
+		type guard struct {
+			nonEmpty, empty []Edge
+			via             string
+		}
+		guards := map[*c05Env]guard{}
+		for _, e := range envs {
+			if q := localRef(e); q != nil {
+				ne, em, via := c06EmptyGuards(c, e.Fn, q)
+				guards[e] = guard{ne, em, via}
 			}
 		}
-		ok := len(nonEmpty) > 0 && len(touches) > 0
-		bad := "the empty reference is no longer rejected"
-		for _, tc := range touches {
-			if !MustPass(tc, newCut().Edges(nonEmpty...)) {
-				ok, bad = false, "the tag state is consulted/modified at "+c.P.Pos(tc.Pos())+" although the reference may be empty"
+		nt := 0
+		ok, bad, via := true, "the empty reference is no longer rejected", ""
+		touchesAt := map[*c05Env][]ssa.Instruction{}
+		for _, e := range envs {
+			for _, call := range Calls(e.Fn, touch) {
+				if _, isDefer := call.(*ssa.Defer); isDefer {
+					continue
+				}
+				nt++
+				// every level up to the root sees this access through the call that leads to it
+				var tgt ssa.Instruction = call.(ssa.Instruction)
+				dominated := false
+				for lv := e; lv != nil; lv = lv.Parent {
+					touchesAt[lv] = append(touchesAt[lv], tgt)
+					if g, has := guards[lv]; has && len(g.nonEmpty) > 0 && MustPass(tgt, newCut().Edges(g.nonEmpty...)) {
+						dominated = true
+						via = g.via
+					}
+					if lv.Call == nil {
+						break
+					}
+					tgt = lv.Call.(ssa.Instruction)
+				}
+				if !dominated {
+					ok, bad = false, "the tag state is consulted/modified at "+c.P.Pos(call.Pos())+" although the reference may be empty"
+				}
 			}
 		}
-		if ok && len(empty) > 0 {
-			ok, bad = c06Refusal(c, fn, empty, "~/errdef.ErrMissingReference", touches)
+		if nt == 0 {
+			ok, bad = false, "the operation no longer touches the tag state (anchor shape lost)"
+		}
+		if ok {
+			for e, g := range guards {
+				if len(g.empty) == 0 {
+					continue
+				}
+				if ok2, why := c06Refusal(c, e.Fn, g.empty, "~/errdef.ErrMissingReference", touchesAt[e]); !ok2 {
+					ok, bad = false, why
+				}
+			}
 		}
 		c.Check(R, tn+"|empty-reference-rejected-first", fn.Pos(), ok,
-			ifelse(ok, fmt.Sprintf("%d tag-state access(es) lie behind the non-empty edge (%s); \"\" yields ErrMissingReference", len(touches), via), bad))
+			ifelse(ok, fmt.Sprintf("%d tag-state access(es) lie behind the non-empty edge (%s); \"\" yields ErrMissingReference", nt, via), bad))
 	}
 }
 
